@@ -5,8 +5,8 @@
    over a commutative ring R: leaves are the entries of an environment (inputs / parameters, the
    things gradients are asked for), constants, and the operators
        negate, x+k, x-k, k-x, x*k (k a constant or a scalar-shaped tensor), add, subtract, multiply
-       (with B-vs-1 minibatch broadcasting), matmul, conv2d, sum along an axis, slice, pick, broadcast,
-       reshape / flatten, transpose, permute_dims, flip.
+       (with B-vs-1 minibatch broadcasting), matmul, conv2d, sum along an axis, slice, pick, concat
+       (any number of operands), broadcast, reshape / flatten, transpose, permute_dims, flip.
    Forward semantics = xeval of the erased program (the real kernel index programs of
    Tensor/Kernels.v); the reverse sweep [dback] pushes the upstream gradient through the BACKWARD
    kernel programs of the SAME operator descriptors as core_family of Tensor/GraphInst.v
@@ -24,8 +24,8 @@
                           per-sample run c
    NOT covered here: the elementwise functions with analytic derivatives, divide / pow (also their
    ...Scalar / ...Const variants), max / min / logsumexp, max_pool2d (no polynomial tangent over a
-   ring; not in core_family), and concat (n-ary; its per-operand folding is concat_bw / paste_adj of
-   Tensor/GraphInst.v). *)
+   ring; not in core_family).  So of the 16 operator kinds of xexpr all but XPool2d are covered,
+   XUn / XBin / XScal / XReduce for their polynomial instances. *)
 From Coq Require Import List NArith Bool Arith Lia Ring Permutation.
 From PV Require Import Graph.OpFamily Tensor.Kernels Tensor.Index Tensor.KernelProofs
   Tensor.ProofsGather Tensor.ProofsPerm Tensor.ProofsBilinear Tensor.ProofsBatchSample Tensor.ProofsBatchLaw
@@ -260,6 +260,47 @@ Proof.
   apply In_flat_map2 in He. destruct He as [b' [Hb' He]]. apply in_map_iff in He. destruct He as [e1 [<- He1]].
   destruct (proj1 (Forall_forall _ _) IB _ He1) as [L _]. unfold shift3. cbn [fst].
   rewrite tsize_eq. pose proof (block_le b' _ (tvolume (conv2d_shape sx sw p0 p1 s0 s1 d0 d1)) Hb'). lia.
+Qed.
+
+Lemma sumn_pos_in l x : In x l -> 0 < x -> 0 < ProofsGather.sumn l.
+Proof.
+  induction l as [|a l IH]; intros Hin Hx; [destruct Hin|]. rewrite sumn_cons. destruct Hin as [->|Hin]; [lia|].
+  specialize (IH Hin Hx). lia.
+Qed.
+
+Lemma guard_concat xs dim : Forall twf xs -> PBS.concat_ok xs dim ->
+  GraphInst.concat_ok xs (concat_shape xs dim) dim = true.
+Proof.
+  intros W [Hne Hall]. set (s0 := hd PBS.dshape xs) in *.
+  assert (Hin0 : In s0 xs) by (unfold s0; destruct xs; [congruence|left; reflexivity]).
+  pose proof (proj1 (Forall_forall _ _) W s0 Hin0) as W0.
+  set (ny := ProofsGather.sumn (map (adim dim) xs)).
+  assert (Hny : 0 < ny).
+  { apply (sumn_pos_in _ (adim dim s0)); [apply in_map; exact Hin0|apply (PBS.tget_pos s0 dim W0)]. }
+  assert (Eg : tget (concat_shape xs dim) dim = ny) by (unfold concat_shape; apply tget_set_dim).
+  assert (El : tlower (concat_shape xs dim) dim = tlower s0 dim) by (unfold concat_shape; apply tlower_set_dim).
+  assert (Ev : tvolume (concat_shape xs dim) = tlower s0 dim * ny * tupper s0 dim).
+  { unfold concat_shape. change (tvolume (with_batch ?s ?b)) with (tvolume s). rewrite tvolume_set_dim. fold s0 ny. ring. }
+  pose proof (tlower_pos s0 dim W0) as Hlo. pose proof (PBS.tupper_pos s0 dim W0) as Hup.
+  unfold GraphInst.concat_ok. rewrite Eg. apply andb_true_intro. split; [apply andb_true_intro; split|].
+  - apply Nat.eqb_eq. reflexivity.
+  - apply Nat.ltb_lt. exact Hny.
+  - apply forallb_forall. intros k Hk. apply in_seq in Hk.
+    assert (Hk' : k < length xs) by lia.
+    set (sk := nth k xs GraphInst.dshape).
+    assert (Hnth : nth_error xs k = Some sk) by (unfold sk; apply nth_error_nth'; exact Hk').
+    assert (Hink : In sk xs) by (apply (nth_error_In _ _ Hnth)).
+    pose proof (proj1 (Forall_forall _ _) W sk Hink) as Wk.
+    destruct (proj1 (Forall_forall _ _) Hall sk Hink) as (Hl & Hu & Hb). fold s0 in Hl, Hu.
+    unfold paste_ok. rewrite El, Eg, Ev.
+    assert (ER : tlower s0 dim * ny * tupper s0 dim / (tlower s0 dim * ny) = tupper s0 dim) by (apply div_exact; nia).
+    rewrite ER. change (tbatch (concat_shape xs dim)) with (maxb xs).
+    pose proof (maxb_ge xs). pose proof (PBS.tget_pos sk dim Wk).
+    pose proof (sumn_firstn_le (adim dim) xs k sk Hnth) as Hoff. fold ny in Hoff. unfold adim at 2 in Hoff.
+    btrue; try lia.
+    + rewrite (vol_split sk dim), Hl, Hu. ring.
+    + apply or_eqb. exact Hb.
+    + unfold concat_off. exact Hoff.
 Qed.
 
 Lemma scalar_fw_length sx sk sy : length (scalar_fw sx sk sy) = tsize sy.
@@ -656,6 +697,31 @@ Section BatchGrad.
     rewrite Ei in E. unfold d in E. rewrite (bin_jvp o s1 s2 a b da db W1 W2 Hc) in E. cbn [OpFamily.dots] in E.
     rewrite !radd_0_r in E. exact E.
   Qed.
+  (* concat of any number of operands: rs = the operands' (shape, value), rs' = their tangents *)
+  Lemma cat_node B dim (rs rs' : list (tshape * list R)) (gy : list R) :
+    Forall (good R B) rs -> Forall (good R B) rs' -> map fst rs' = map fst rs ->
+    PBS.concat_ok (map fst rs) dim -> length gy = tsize (concat_shape (map fst rs) dim) ->
+    let xs := map fst rs in let d := desc (OConcat xs (concat_shape xs dim) dim) in
+    let incs := d_bw d (map snd rs) (d_fw d (map snd rs)) [gy] in
+    Forall2 (fun (inc : list R) r => length inc = tsize (fst r)) incs rs /\
+    dots incs (map snd rs') = dot gy (concat_val R rO rs' dim).
+  Proof.
+    intros Hg Hg' Es Hok Hgy xs d incs.
+    assert (W : Forall twf xs) by (unfold xs; rewrite Forall_map; eapply Forall_impl; [|exact Hg]; intros r Hr; apply Hr).
+    assert (Hguard : d_ok d = true) by (apply (guard_concat xs dim W Hok)).
+    assert (Sz : forall l : list (tshape * list R), Forall (good R B) l -> Forall2 AdjCore.sized (map snd l) (map fst l)).
+    { induction 1 as [|r l Hr _ IH]; cbn [map]; constructor; [apply Hr|exact IH]. }
+    pose proof (describe_LA rO rI radd rmul rsub ropp Rth (OConcat xs (concat_shape xs dim) dim) Hguard (map snd rs) (map snd rs') [gy]) as H.
+    change (d_args (desc (OConcat xs (concat_shape xs dim) dim))) with xs in H.
+    change (d_rets (desc (OConcat xs (concat_shape xs dim) dim))) with [concat_shape xs dim] in H.
+    change (d_nop (desc (OConcat xs (concat_shape xs dim) dim))) with false in H.
+    destruct H as (E & Hs & _); [apply Sz; exact Hg|unfold xs; rewrite <- Es; apply Sz; exact Hg'|constructor; [exact Hgy|constructor]|].
+    specialize (Hs eq_refl). fold d incs in E, Hs. split.
+    - unfold xs in Hs. clear - Hs. revert Hs. generalize incs. induction rs as [|r rs IH]; intros l Hs; inversion Hs; subst; constructor; auto.
+    - rewrite E. unfold d. cbn [describe nary_desc d_jvp OpFamily.dots]. rewrite radd_0_r. f_equal.
+      unfold concat_val. rewrite Es. reflexivity.
+  Qed.
+
   (* ---------------------------------------------------------------- linear algebra over lists *)
   Definition unit (n i : nat) : list R := repeat rO i ++ rI :: repeat rO (n - i - 1).
   Lemma unit_length n i : i < n -> length (unit n i) = n.
@@ -738,7 +804,31 @@ Section BatchGrad.
   | DLeaf (k : nat)                       (* entry k of the environment: an input or a parameter *)
   | DConst (s : tshape) (v : list R)      (* a constant: no gradient is asked for *)
   | DUn (u : unop) (e : dexpr)
-  | DBin (o : binop) (e1 e2 : dexpr).
+  | DBin (o : binop) (e1 e2 : dexpr)
+  | DConcat (dim : nat) (es : list dexpr).
+
+  Section DInd.
+    Variable P : dexpr -> Prop.
+    Hypothesis HLeaf : forall k, P (DLeaf k).
+    Hypothesis HConst : forall s v, P (DConst s v).
+    Hypothesis HUn : forall u e, P e -> P (DUn u e).
+    Hypothesis HBin : forall o e1 e2, P e1 -> P e2 -> P (DBin o e1 e2).
+    Hypothesis HConcat : forall dim es, Forall P es -> P (DConcat dim es).
+    Fixpoint dexpr_induction (e : dexpr) : P e :=
+      match e with
+      | DLeaf k => HLeaf k
+      | DConst s v => HConst s v
+      | DUn u e1 => HUn u e1 (dexpr_induction e1)
+      | DBin o e1 e2 => HBin o e1 e2 (dexpr_induction e1) (dexpr_induction e2)
+      | DConcat dim es =>
+          HConcat dim es
+            ((fix go (l : list dexpr) : Forall P l :=
+                match l with
+                | [] => Forall_nil P
+                | x :: r => Forall_cons x (dexpr_induction x) (go r)
+                end) es)
+      end.
+  End DInd.
 
   Definition lenv := list (tshape * list R).
   Definition dleaf : tshape * list R := (PBS.dshape, [rO]).
@@ -750,6 +840,7 @@ Section BatchGrad.
     | DConst s v => XLeaf R s v
     | DUn u e1 => un_x u (erase env e1)
     | DBin o e1 e2 => bin_x o (erase env e1) (erase env e2)
+    | DConcat dim es => XConcat R dim (map (erase env) es)
     end.
   (* its tangent program in the direction denv (one tangent per environment entry) *)
   Fixpoint dtan (env : lenv) (denv : list (list R)) (e : dexpr) : xexpr :=
@@ -758,6 +849,7 @@ Section BatchGrad.
     | DConst s v => XLeaf R s (zeros (tsize s))
     | DUn u e1 => un_t u (dtan env denv e1)
     | DBin o e1 e2 => bin_t o (erase env e1) (erase env e2) (dtan env denv e1) (dtan env denv e2)
+    | DConcat dim es => XConcat R dim (map (dtan env denv) es)         (* concat is linear *)
     end.
   (* accepted with minibatch size B *)
   Fixpoint dwf (B : nat) (env : lenv) (e : dexpr) : Prop :=
@@ -766,7 +858,15 @@ Section BatchGrad.
     | DConst s v => good R B (s, v)
     | DUn u e1 => dwf B env e1 /\ un_cond u B (fst (xe (erase env e1)))
     | DBin o e1 e2 => dwf B env e1 /\ dwf B env e2 /\ bin_cond o (fst (xe (erase env e1))) (fst (xe (erase env e2)))
+    | DConcat dim es =>
+        fold_right (fun e1 acc => dwf B env e1 /\ acc) True es /\
+        PBS.concat_ok (map (fun e1 => fst (xe (erase env e1))) es) dim
     end.
+  Lemma dwf_all B env es : fold_right (fun e1 acc => dwf B env e1 /\ acc) True es <-> Forall (dwf B env) es.
+  Proof.
+    induction es as [|e es IH]; cbn [fold_right]; [split; [constructor|trivial]|].
+    rewrite IH. split; [intros [H1 H2]; constructor; assumption|intro H; inversion H; auto].
+  Qed.
   Definition env_ok (B : nat) (env : lenv) : Prop := Forall (good R B) env.
   Definition sized (gs : list (list R)) (env : lenv) : Prop := Forall2 (fun g r => length g = tsize (fst r)) gs env.
 
@@ -782,17 +882,20 @@ Section BatchGrad.
 
   Lemma dwf_xw B env e : env_ok B env -> dwf B env e -> xw B (erase env e).
   Proof.
-    intro He. induction e as [k|s v|u e IH|o e1 IH1 e2 IH2]; cbn [dwf erase].
+    intro He. induction e as [k|s v|u e IH|o e1 e2 IH1 IH2|dim es IH] using dexpr_induction; cbn [dwf erase].
     - intro Hk. exact (env_ok_nth B env k He Hk).
     - intro H. exact H.
     - intros [H1 H2]. apply xw_un_x. auto.
     - intros (H1 & H2 & H3). apply xw_bin_x; auto.
+    - intros [Hall Hok]. apply dwf_all in Hall. cbn [xwf]. split.
+      + apply xwf_all. rewrite Forall_map. rewrite Forall_forall in IH, Hall. apply Forall_forall. intros e Hin. apply IH; auto.
+      + rewrite !map_map. exact Hok.
   Qed.
 
   Lemma dtan_ok B env denv e : env_ok B env -> sized denv env -> dwf B env e ->
     xw B (dtan env denv e) /\ fst (xe (dtan env denv e)) = fst (xe (erase env e)).
   Proof.
-    intros He Hd. induction e as [k|s v|u e IH|o e1 IH1 e2 IH2]; cbn [dwf erase dtan].
+    intros He Hd. induction e as [k|s v|u e IH|o e1 e2 IH1 IH2|dim es IH] using dexpr_induction; cbn [dwf erase dtan].
     - intro Hk. split; [|reflexivity]. destruct (env_ok_nth B env k He Hk) as (W & Bk & _).
       cbn [xwf]. split; [exact W|split; [exact Bk|apply sized_nth; assumption]].
     - intros (W & Bs & _). cbn [fst snd] in *. split; [|reflexivity]. cbn [xwf]. split; [exact W|split; [exact Bs|apply repeat_length]].
@@ -802,6 +905,16 @@ Section BatchGrad.
     - intros (H1 & H2 & H3). destruct (IH1 H1) as [A1 E1]. destruct (IH2 H2) as [A2 E2]. split.
       + apply xw_bin_t; auto; apply dwf_xw; assumption.
       + rewrite fst_bin_x. apply fst_bin_t; assumption.
+    - intros [Hall Hok]. apply dwf_all in Hall.
+      assert (G : Forall (fun e => xw B (dtan env denv e) /\ fst (xe (dtan env denv e)) = fst (xe (erase env e))) es).
+      { rewrite Forall_forall in IH, Hall. apply Forall_forall. intros e Hin. apply IH; auto. }
+      assert (Esh : map fst (map xe (map (dtan env denv) es)) = map fst (map xe (map (erase env) es))).
+      { rewrite !map_map. apply map_ext_in. intros e Hin. apply (proj1 (Forall_forall _ _) G e Hin). }
+      split.
+      + cbn [xwf]. split.
+        * apply xwf_all. rewrite Forall_map. eapply Forall_impl; [|exact G]. cbn beta. tauto.
+        * rewrite Esh, !map_map. exact Hok.
+      + cbn [xeval fst]. rewrite Esh. reflexivity.
   Qed.
 
   (* ---------------------------------------------------------------- the reverse sweep *)
@@ -813,6 +926,12 @@ Section BatchGrad.
   (* gy: the gradient arriving at the node; acc: the gradients of the leaves accumulated so far.
      Every operator adds to its operands the increments its BACKWARD kernels compute
      (d_bw of the descriptor of core_family); a leaf does gx += gy. *)
+  Definition back_list (F : dexpr -> list R -> list (list R) -> list (list R)) :=
+    fix go (es : list dexpr) (incs : list (list R)) (acc : list (list R)) {struct es} : list (list R) :=
+      match es with
+      | [] => acc
+      | e :: r => match incs with [] => acc | inc :: ir => go r ir (F e inc acc) end
+      end.
   Fixpoint dback (env : lenv) (e : dexpr) (gy : list R) (acc : list (list R)) : list (list R) :=
     match e with
     | DLeaf k => add_at k gy acc
@@ -825,6 +944,10 @@ Section BatchGrad.
         let d := desc (bin_cop o (fst r1) (fst r2)) in
         let incs := d_bw d [snd r1; snd r2] (d_fw d [snd r1; snd r2]) [gy] in
         dback env e2 (nth 1 incs []) (dback env e1 (nth 0 incs []) acc)
+    | DConcat dim es =>
+        let rs := map (fun e1 => xe (erase env e1)) es in let xs := map fst rs in
+        let d := desc (OConcat xs (concat_shape xs dim) dim) in
+        back_list (dback env) es (d_bw d (map snd rs) (d_fw d (map snd rs)) [gy]) acc
     end.
   Definition zero_grads (env : lenv) : list (list R) := map (fun r => zeros (tsize (fst r))) env.
   Definition grad (env : lenv) (e : dexpr) (gy : list R) : list (list R) := dback env e gy (zero_grads env).
@@ -848,7 +971,7 @@ Section BatchGrad.
       sized (dback env e gy acc) env /\
       dots (dback env e gy acc) denv = radd (dots acc denv) (dot gy (snd (xe (dtan env denv e)))).
   Proof.
-    intros HB He Hd. induction e as [k|s v|u e IH|o e1 IH1 e2 IH2]; cbn [dwf]; intros Hw gy acc Ha Hg.
+    intros HB He Hd. induction e as [k|s v|u e IH|o e1 e2 IH1 IH2|dim es IH] using dexpr_induction; cbn [dwf]; intros Hw gy acc Ha Hg.
     - cbn [erase xeval fst] in Hg. cbn [dback dtan xeval snd]. apply add_at_spec; assumption.
     - cbn [dback dtan xeval snd]. split; [exact Ha|]. rewrite (dot_zeros_r rO rI radd rmul rsub ropp Rth). ring.
     - destruct Hw as [H1 H2]. pose proof (dwf_xw B env e He H1) as Hx.
@@ -873,6 +996,44 @@ Section BatchGrad.
       destruct (IH1 H1 i1 acc Ha Li1) as [S1 E1]. destruct (IH2 H2 i2 _ S1 Li2) as [S2 E2].
       split; [exact S2|]. rewrite E2, E1.
       rewrite (xe_bin_t o (erase env e1) (erase env e2) (dtan env denv e1) (dtan env denv e2)), Et1, Et2, <- Ed. ring.
+    - destruct Hw as [Hall Hok]. apply dwf_all in Hall.
+      set (rs := map (fun e1 => xe (erase env e1)) es).
+      set (rs' := map (fun e1 => xe (dtan env denv e1)) es).
+      assert (Gr : Forall (good R B) rs).
+      { unfold rs. rewrite Forall_map. eapply Forall_impl; [|exact Hall]. intros e1 H1. apply (xeval_good R rO radd rmul B _ HB (dwf_xw B env e1 He H1)). }
+      assert (Gt : Forall (fun e1 => xw B (dtan env denv e1) /\ fst (xe (dtan env denv e1)) = fst (xe (erase env e1))) es).
+      { eapply Forall_impl; [|exact Hall]. intros e1 H1. apply (dtan_ok B env denv e1 He Hd H1). }
+      assert (Gr' : Forall (good R B) rs').
+      { unfold rs'. rewrite Forall_map. eapply Forall_impl; [|exact Gt]. intros e1 [H1 _]. apply (xeval_good R rO radd rmul B _ HB H1). }
+      assert (Es : map fst rs' = map fst rs).
+      { unfold rs, rs'. rewrite !map_map. apply map_ext_in. intros e1 Hin. apply (proj1 (Forall_forall _ _) Gt e1 Hin). }
+      assert (Hok' : PBS.concat_ok (map fst rs) dim) by (unfold rs; rewrite map_map; exact Hok).
+      assert (Hg' : length gy = tsize (concat_shape (map fst rs) dim)).
+      { rewrite Hg. cbn [erase xeval fst]. unfold rs. rewrite !map_map. reflexivity. }
+      destruct (cat_node B dim rs rs' gy Gr Gr' Es Hok' Hg') as [Hsz Ed].
+      cbn [dback]. cbv zeta. fold rs.
+      set (incs := d_bw (desc (OConcat (map fst rs) (concat_shape (map fst rs) dim) dim)) (map snd rs)
+                        (d_fw (desc (OConcat (map fst rs) (concat_shape (map fst rs) dim) dim)) (map snd rs)) [gy]) in *.
+      assert (Hsz' : Forall2 (fun (inc : list R) e1 => length inc = tsize (fst (xe (erase env e1)))) incs es).
+      { clear - Hsz. unfold rs in Hsz. revert Hsz. generalize incs. clear incs. induction es as [|e1 es IHes]; intros l H; inversion H; subst; constructor; auto. }
+      assert (BL : forall es' l acc', Forall2 (fun (inc : list R) e1 => length inc = tsize (fst (xe (erase env e1)))) l es' ->
+                 Forall (fun e1 => dwf B env e1 -> forall gy' acc'', sized acc'' env -> length gy' = tsize (fst (xe (erase env e1))) ->
+                     sized (dback env e1 gy' acc'') env /\
+                     dots (dback env e1 gy' acc'') denv = radd (dots acc'' denv) (dot gy' (snd (xe (dtan env denv e1))))) es' ->
+                 Forall (dwf B env) es' -> sized acc' env ->
+                 sized (back_list (dback env) es' l acc') env /\
+                 dots (back_list (dback env) es' l acc') denv
+                 = radd (dots acc' denv) (dots l (map (fun e1 => snd (xe (dtan env denv e1))) es'))).
+      { induction es' as [|e1 es' IHes]; intros l acc' H2 HI HW Hacc; inversion H2; subst; cbn [back_list map OpFamily.dots].
+        - split; [exact Hacc|ring].
+        - inversion HI; subst. inversion HW; subst.
+          match goal with Hx : dwf B env e1 -> _, Hd1 : dwf B env e1, Hl : length _ = tsize (fst (xe (erase env e1))) |- _ =>
+            destruct (Hx Hd1 _ acc' Hacc Hl) as [S1 E1] end.
+          match goal with Hf : Forall2 _ _ es' |- _ => destruct (IHes _ _ Hf ltac:(assumption) ltac:(assumption) S1) as [S2 E2] end.
+          split; [exact S2|]. rewrite E2, E1. ring. }
+      destruct (BL es incs acc Hsz' IH Hall Ha) as [S1 E1]. split; [exact S1|]. rewrite E1. f_equal.
+      replace (map (fun e1 => snd (xe (dtan env denv e1))) es) with (map snd rs') by (unfold rs'; rewrite map_map; reflexivity).
+      rewrite Ed. cbn [dtan xeval snd]. rewrite map_map. reflexivity.
   Qed.
   (* ---------------------------------------------------------------- the per-sample program *)
   Definition env_s (b : nat) (env : lenv) : lenv := map (spair b) env.
@@ -886,6 +1047,7 @@ Section BatchGrad.
     | DConst s v => DConst (unb s) (sample_or_shared s b (tvolume s) v)
     | DUn u e1 => DUn (un_s b u) (dsample b e1)
     | DBin o e1 e2 => DBin o (dsample b e1) (dsample b e2)
+    | DConcat dim es => DConcat dim (map (dsample b) es)
     end.
 
   Lemma nth_env_s b env k : k < length env -> nth k (env_s b env) dleaf = spair b (nth k env dleaf).
@@ -904,22 +1066,26 @@ Section BatchGrad.
   (* sampling commutes with erasure and with taking the tangent program *)
   Lemma erase_sample B b env e : dwf B env e -> xsample R b (erase env e) = erase (env_s b env) (dsample b e).
   Proof.
-    induction e as [k|s v|u e IH|o e1 IH1 e2 IH2]; cbn [dwf erase dsample].
+    induction e as [k|s v|u e IH|o e1 e2 IH1 IH2|dim es IH] using dexpr_induction; cbn [dwf erase dsample].
     - intro Hk. rewrite (nth_env_s b env k Hk). reflexivity.
     - reflexivity.
     - intros [H1 _]. rewrite <- (IH H1). destruct u; reflexivity.
     - intros (H1 & H2 & _). rewrite <- (IH1 H1), <- (IH2 H2). destruct o; reflexivity.
+    - intros [Hall _]. apply dwf_all in Hall. cbn [xsample]. f_equal. rewrite !map_map. apply map_ext_in.
+      intros e Hin. rewrite Forall_forall in IH, Hall. apply IH; auto.
   Qed.
   Lemma dtan_sample B b env denv e : b < B -> env_ok B env -> sized denv env -> dwf B env e ->
     xsample R b (dtan env denv e) = dtan (env_s b env) (denv_s b env denv) (dsample b e).
   Proof.
-    intros Hb He Hd. induction e as [k|s v|u e IH|o e1 IH1 e2 IH2]; cbn [dwf dtan dsample].
+    intros Hb He Hd. induction e as [k|s v|u e IH|o e1 e2 IH1 IH2|dim es IH] using dexpr_induction; cbn [dwf dtan dsample].
     - intro Hk. rewrite (nth_env_s b env k Hk), (nth_denv_s b env denv k Hk (sized_length _ _ Hd)). reflexivity.
     - intros (_ & Bs & _). cbn [fst] in Bs. cbn [xsample]. f_equal. unfold sample_or_shared.
       rewrite tsize_unb. apply block_repeat. unfold tsize. apply Nat.mul_le_mono_r. pose proof (bsel_lt s b B Bs Hb). lia.
     - intros [H1 _]. rewrite <- (IH H1). destruct u; reflexivity.
     - intros (H1 & H2 & _). rewrite <- (IH1 H1), <- (IH2 H2), <- (erase_sample B b env e1 H1), <- (erase_sample B b env e2 H2).
       destruct o; reflexivity.
+    - intros [Hall _]. apply dwf_all in Hall. cbn [xsample]. f_equal. rewrite !map_map. apply map_ext_in.
+      intros e Hin. rewrite Forall_forall in IH, Hall. apply IH; auto.
   Qed.
 
   Lemma good_sample B b r : b < B -> good R B r -> good R 1 (spair b r).
@@ -943,7 +1109,7 @@ Section BatchGrad.
 
   Lemma dwf_sample B b env e : 0 < B -> b < B -> env_ok B env -> dwf B env e -> dwf 1 (env_s b env) (dsample b e).
   Proof.
-    intros HB Hb He. induction e as [k|s v|u e IH|o e1 IH1 e2 IH2]; cbn [dwf dsample].
+    intros HB Hb He. induction e as [k|s v|u e IH|o e1 e2 IH1 IH2|dim es IH] using dexpr_induction; cbn [dwf dsample].
     - unfold env_s. rewrite map_length. auto.
     - intro H. exact (good_sample B b (s, v) Hb H).
     - intros [H1 H2]. split; [apply IH; exact H1|].
@@ -954,6 +1120,14 @@ Section BatchGrad.
       rewrite (batch_law_program_ext_shape R rO radd rmul B b _ HB Hb (dwf_xw B env e1 He H1)).
       rewrite (batch_law_program_ext_shape R rO radd rmul B b _ HB Hb (dwf_xw B env e2 He H2)).
       apply bin_cond_sample. exact H3.
+    - intros [Hall Hok]. apply dwf_all in Hall. split.
+      + apply dwf_all. rewrite Forall_map. rewrite Forall_forall in IH, Hall. apply Forall_forall. intros e Hin. apply IH; auto.
+      + rewrite map_map.
+        replace (map (fun x => fst (xe (erase (env_s b env) (dsample b x)))) es)
+          with (map unb (map (fun e1 => fst (xe (erase env e1))) es)); [apply concat_ok_unb; exact Hok|].
+        rewrite map_map. apply map_ext_in. intros e Hin. rewrite Forall_forall in Hall.
+        rewrite <- (erase_sample B b env e (Hall e Hin)).
+        symmetry. apply (batch_law_program_ext_shape R rO radd rmul B b _ HB Hb (dwf_xw B env e He (Hall e Hin))).
   Qed.
 
   Lemma sized_denv_s B b env denv : b < B -> env_ok B env -> sized denv env -> sized (denv_s b env denv) (env_s b env).
